@@ -201,7 +201,9 @@ func (fd *Client) UpdateTable(input *dynamodb.UpdateTableInput) (*dynamodb.Updat
 	}
 
 	if input.AttributeDefinitions != nil {
-		table.SetAttributeDefinition(mapAttributeValueDefinitionToDynamodb(input.AttributeDefinitions))
+		if err := table.UpdateAttributeDefinition(mapAttributeValueDefinitionToDynamodb(input.AttributeDefinitions)); err != nil {
+			return nil, err
+		}
 	}
 
 	for _, change := range input.GlobalSecondaryIndexUpdates {
